@@ -24,7 +24,10 @@ RULE = (
     "order, every descriptor re-expressed by a proper element or by an "
     "improper element with flipped parity of the geometric oracle; also the "
     "library's relabel_atoms): hashes must be equal and the variant must be "
-    "found in a set / dict keyed by the original. (B) independent pairs that "
+    "found in a set / dict keyed by the original; a further source reaches "
+    "the graph through an editing history, in half of them with the graph "
+    "hashed / compared / viewed after every edit, and compares its hash with "
+    "a renamed fresh build. (B) independent pairs that "
     "the brute-force oracle declares isomorphic: hashes equal. (C) batches "
     "of non-empty recipes are rebuilt in child interpreters with other "
     "PYTHONHASHSEED values (3 per batch in quick, 12 in thorough): every "
@@ -124,6 +127,9 @@ def check_history(ctx, case):
     try:
         for op in case["ops"]:
             g = O.apply_real(g, op)
+            # read-only uses between the edits: a memoised hash / component
+            # list / colouring must not survive the next edit
+            O.pre_use(g, case.get("observe", 0))
     except Exception:
         return None
     mp = {a: b for a, b in case["mapping"] if a in m.atoms}
@@ -272,7 +278,8 @@ def run(ctx):
         mp = dict(zip(atoms, tp.shuffle(pool)[:len(atoms)]))
         return {"via": "history", "cls": cls, "ops": ops,
                 "mapping": [[a, b] for a, b in mp.items()],
-                "tseed": tp.below(1 << 30)}
+                "tseed": tp.below(1 << 30),
+                "observe": tp.pick([0, 0, 1, 3])}
 
     def check_h(case):
         m = check_history(ctx, case)
